@@ -1,7 +1,7 @@
 (* Extract/E_C15.v — wire entry for C15 (glue, not trusted for theorems).
-   case   = [fix_a, fix_b, [op, ...]]
+   case   = [fix_a, fix_b, fix_c, nquiet, [op, ...]]
    op     = [tag, args...]   names are lists of byte values, a rename mapping is [[k, v], ...]
-   result = [[step, ...], [final per dataset]]
+   result = [[step, ...], [final per dataset], obs before the first reported step]
    step   = [code, obs, [flags]]            code 0 = returned, else the exception code of Base/Res.v
    obs    = [[dsobs, dsobs], [handle status, ...]] *)
 From Coq Require Import ZArith List Bool.
@@ -75,11 +75,20 @@ Definition enc_final (x:fview * fview * bool) : val :=
 
 Definition entry_C15 (v:val) : val :=
   match v with
-  | VL [VZ fa; VZ fb; VL ops] =>
+  | VL [VZ fa; VZ fb; VZ fc; VZ nquiet; VL ops] =>
       match all_some (map dec_op ops) with
       | Some ops =>
-          let (tr, fv) := run_case (mkCfg (negb (fa =? 0)) (negb (fb =? 0))) ops in
-          VL [VL (map enc_step tr); VL (map enc_final fv)]
+          let (tr, fv) := run_case (mkCfg (negb (fa =? 0)) (negb (fb =? 0)) (negb (fc =? 0))) ops in
+          (* the steps of the case's fixed preamble are not reported unless the history stopped there *)
+          let quiet := (Z.to_nat nquiet <? length tr)%nat in
+          let shown := if quiet then skipn (Z.to_nat nquiet) tr else tr in
+          (* observation before the first reported step *)
+          let start := if quiet then match nth_error tr (Z.to_nat nquiet - 1) with
+                                     | Some r => if 0 <? nquiet then sr_obs r else observe init_state []
+                                     | None => observe init_state []
+                                     end
+                       else observe init_state [] in
+          VL [VL (map enc_step shown); VL (map enc_final fv); enc_obs start]
       | None => vbad
       end
   | _ => vbad
